@@ -119,6 +119,20 @@ def check(run, prog):
         if out is None:
             continue
         d = out.attrs.get("_data")
+        from ..symeval import PhiV as _PhiV
+        if isinstance(d, _PhiV):
+            # a shortcut for some delay patterns (say, "nothing moves"): the general law is checked on the arm that realigns; what the
+            # shortcut returns is decided on the concrete patterns of R3 (no delay at all / all channels equally early / late)
+            arms, todo = [], [d]
+            while todo:
+                v_ = todo.pop()
+                if isinstance(v_, _PhiV):
+                    todo += [v_.a, v_.b]
+                else:
+                    arms.append(v_)
+            st_arms = [v_ for v_ in arms if isinstance(v_, StackV)]
+            if len(st_arms) == 1:
+                d = st_arms[0]
         if not isinstance(d, StackV) or d.axis != 1 or len(d.items) != nchan:
             ck.same("R2", f_inc.where, "result data " + tag, "one realigned channel per input channel, stacked on the frequency axis",
                     False, found=repr(d)[:200])
@@ -198,6 +212,8 @@ def per_channel(val, D, nchan):
         if ds is None or ds[0] != D or ds[3] != NONE_S:
             return None
         return ds
+    if isinstance(val, Num) and val.expr == D:
+        return [(sp.Integer(0), N, i) for i in range(nchan)]          # the whole input (a copy of it): every channel over [0, N)
     if isinstance(val, StackV):
         if val.axis != 1:
             return None
@@ -260,6 +276,8 @@ def realign_concrete(ck, prog, f_inc, f_sd, dm):
         pats = pats[:3] + pats[5:]
     # one channel: a delay relative to a reference outside the channel is still a delay
     pats += [("single channel, late", ["2.7"]), ("single channel, early", ["-3.2"])]
+    # every channel with the same whole-sample delay: nothing moves relative to anything else, but the time stamp still does
+    pats += [("no channel delayed", ["0.2", "0.1", "-0.3"]), ("all channels equally early", ["-3.2", "-2.9", "-3.4"]), ("all channels equally late", ["2.2", "1.9", "2.4"])]
     n_ok = 0
     dotted = f"{f_sd.module}.{f_sd.qualname}"
     for label, ds_ in pats:
